@@ -22,7 +22,7 @@ def pt(p):
 
 
 def concretise(c, rnd):
-    a = geom.ref_element("rect", c["a"], "a")
+    a = geom.ref_element(rnd.choice(["rect", "rect", "circle", "box"]), c["a"], "a")
     bk = rnd.choice(["rect", "ellipse", "circle"])
     b = geom.ref_element(bk, c["b"], "b")
     f = c["form"]
